@@ -82,7 +82,7 @@ func parseTimes(s *spdx.Document) string {
 }
 
 // spdxSeams runs the three seams on one document and adds the cases.
-func spdxSeams(rep *Report, cf *CasesFile, g *gen.G, d *sbom.Document, kind string) (doc2 *sbom.Document, wrote []byte) {
+func spdxSeams(rep *Report, cf caseAdder, g *gen.G, d *sbom.Document, kind string) (doc2 *sbom.Document, wrote []byte) {
 	ser := serializers.NewSPDX23()
 	var native_ any
 	var err error
@@ -131,10 +131,13 @@ func spdxSeams(rep *Report, cf *CasesFile, g *gen.G, d *sbom.Document, kind stri
 	if decoded != nil {
 		obsC = "(Some " + nativefmt.SDoc(decoded) + ")"
 	}
-	c2 := fmt.Sprintf("(SChan %s %s)", nativefmt.SDoc(sd), obsC)
-	cf.Add(c2)
-	rep.NoteCase(c2, len(sd.Packages)+len(sd.Files) >= 2, map[string]any{"seam": "JSON layer", "kind": kind, "document": docJSON(d), "indent": indent})
-	rep.Count("seam=C:" + kind)
+	if kind == "class" {
+		// the JSON layer (third-party encoder and decoder) is modelled on the class only
+		c2 := fmt.Sprintf("(SChan %s %s)", nativefmt.SDoc(sd), obsC)
+		cf.Add(c2)
+		rep.NoteCase(c2, len(sd.Packages)+len(sd.Files) >= 2, map[string]any{"seam": "JSON layer", "kind": kind, "document": docJSON(d), "indent": indent})
+		rep.Count("seam=C:" + kind)
+	}
 	if decoded == nil {
 		return nil, nil
 	}
